@@ -70,7 +70,9 @@ def run_config(rep, impl, cfg, opts, world, vcs, tags=(), kill=False):
     vcs_cfg = dict(tags=list(tags), status=status, remote="origin" if remote else None, fail=[fail] if fail else [], fail_silent=hash((cfg, opts, world)) % 2 == 0, usable=True, watch="a.txt")
     # some git projects are laid out like a linked worktree / submodule (.git is a file); the steps are the same
     git_file = vcs == "fakegit" and (hash((cfg, opts, world)) % 4 == 0)
-    prj = project.TempProject("MAJOR.MINOR.PATCH", "1.2.3", files={"a.txt": ["ver = {version}"]}, commit=commit, tag=tag, push=push,
+    # every third configuration spells the file entry "./a.txt" (the VCS reports "a.txt"): the steps are the same
+    fkey = "./a.txt" if hash((cfg, opts, world, "dot")) % 3 == 0 else "a.txt"
+    prj = project.TempProject("MAJOR.MINOR.PATCH", "1.2.3", files={fkey: ["ver = {version}"]}, contents={"a.txt": "ver = 1.2.3\n"}, commit=commit, tag=tag, push=push,
                               vcs=vcs if has_vcs else None, vcs_cfg=vcs_cfg if has_vcs else None, hooks=hooks, git_file=git_file,
                               tag_message="" if tagmsg_empty else "tag {new_version}")
     # every third configuration names its hooks on the command line (--pre-commit-hook / --post-commit-hook) instead of in the config file
